@@ -7,6 +7,7 @@ package e2
 import (
 	"fmt"
 	"sort"
+	"strings"
 	"time"
 
 	vs "github.com/theQRL/go-qrllib/verifsched"
@@ -101,6 +102,7 @@ type Stats struct {
 	Restarts                                          int
 	Capped                                            bool
 	Diverged                                          bool
+	InfraErr                                          string
 }
 
 // Progress, if set, is called after every execution (watchdog keep-alive).
@@ -309,6 +311,12 @@ func Explore(name string, be Backend, maxBound int, expected []string, maxExec i
 			Progress()
 		}
 		st.PointsSeen = x.PointsSeen
+		if x.Err != "" && !x.Stuck && !strings.Contains(x.Err, "go-qrllib") {
+			// the execution could not be run at all (process spawn failure, ...) and the library is not implicated:
+			// an infrastructure cap, never a verdict
+			st.InfraErr, st.Capped = x.Err, true
+			return true
+		}
 		if x.Diverged || x.Stuck {
 			st.Diverged, st.Capped = true, true
 			return true
